@@ -148,6 +148,13 @@ impl Response {
                     self.headers.set().ContentLength(None);
                 }
             }
+            (Content::None, status) if self.headers.ContentLength().is_none() && !matches!(status,
+                Status::Continue | Status::SwitchingProtocols | Status::Processing | Status::EarlyHints | Status::NotModified
+            ) => {
+                /* e.g. after `drop_content`: without a declared length
+                   the client has to wait for the connection to close */
+                self.headers.set().ContentLength("0");
+            }
             _ => (/* let it go by user's responsibility */)
         }
     }
